@@ -136,6 +136,15 @@ def corpus(rng, n):
         c["cli"].append([["-" + ver, "-v", rng.choice((s[:k] + ch + s[k:], s + ch, s[:-1] + ch))], []])
         c["construct"].append([ver, s[:k] + ch + s[k:]])
         c["text"].append("%s%s%s %s" % (ch, s, ch, s))
+    # line ends and blanks glued to an otherwise valid vector (`-v "$(cat file)"` keeps none, `-v "$line"` from a CRLF file
+    # keeps the '\r'; regex anchors and str methods treat a final newline differently between interpreters)
+    for ver in T.VERSIONS:
+        for tail in ("\n", "\r\n", "\r", " ", "\t", "\n\n", "\x0b", "\x0c", "\x1c", "\x85"):
+            p, m, s = V.rand_vector(rng, ver, p_opt=0.3, p_nd=0.2)
+            for s2 in (s + tail, tail + s):
+                c["cli"].append([["-" + ver, "-v", s2], []])
+                c["construct"].append([ver, s2])
+                c["rh"].append([ver, "0.0/" + s2])
     for vf in ([], ["-2"], ["-3"], ["-4"]):
         for s in ("é", "CVSS:3.1/AV:N/AC:L/PR:N/UI:N/S:U/C:H/I:H/A:Ä", "AV:N/AC:L/Au:N/C:P/I:P/A:\u4e2d"):
             c["cli"].append([vf + ["-v", s], []])
